@@ -226,8 +226,16 @@ func mayExec(fn *ssa.Function, pred func(ssa.Instruction) bool, depth int) bool 
 			if _, isGo := i.(*ssa.Go); isGo {
 				return
 			}
-			if sc := cc.StaticCallee(); sc != nil && isRepoFn(sc) && mayExec(unwrap(sc), pred, depth+1) {
-				hit = true
+			if sc := cc.StaticCallee(); sc != nil {
+				if isRepoFn(sc) && mayExec(unwrap(sc), pred, depth+1) {
+					hit = true
+				}
+			} else if !cc.IsInvoke() {
+				for _, g := range funcsOf(cc.Value) { // a local closure variable called here
+					if mayExec(g, pred, depth+1) {
+						hit = true
+					}
+				}
 			}
 		}
 	})
@@ -378,7 +386,35 @@ func funcsOf(v ssa.Value) []*ssa.Function {
 						walk(dd.Val, d+1)
 					}
 				}
+				if fv, ok := y.X.(*ssa.FreeVar); ok {
+					walk(fv, d+1)
+				}
 			}
+		case *ssa.FreeVar:
+			// a captured variable (cell): what the makers of the closure bind, and what is stored into that cell
+			fn := y.Parent()
+			if fn == nil || fn.Parent() == nil {
+				return
+			}
+			idx := -1
+			for k, fv := range fn.FreeVars {
+				if fv == y {
+					idx = k
+				}
+			}
+			eachInstr(fn.Parent(), func(i ssa.Instruction) {
+				if mc, ok := i.(*ssa.MakeClosure); ok && mc.Fn == fn && idx >= 0 && idx < len(mc.Bindings) {
+					b := mc.Bindings[idx]
+					walk(b, d+1)
+					if a, ok := b.(*ssa.Alloc); ok {
+						for _, r := range *a.Referrers() {
+							if st, ok := r.(*ssa.Store); ok && st.Addr == a {
+								walk(st.Val, d+1)
+							}
+						}
+					}
+				}
+			})
 		case *ssa.Call:
 			if sc := y.Call.StaticCallee(); sc != nil && isRepoFn(sc) {
 				eachInstr(sc, func(i ssa.Instruction) {
